@@ -377,12 +377,6 @@ theorem handwritten_types_spec :
   · intro wc shard seqno root file hw hs hq hr hf
     simp [encode, hb, blockIdExtDecl, encodeFields, present?, hw, hs, hq, hr, hf, blockIdExtTL]
 
-theorem take_app (a b : Bytes) (n : Nat) (h : a.length = n) : (a ++ b).take n = a := by
-  subst h; simp
-
-theorem drop_app (a b : Bytes) (n : Nat) (h : a.length = n) : (a ++ b).drop n = b := by
-  subst h; simp
-
 /-- decode sides of the hand-written codecs: `(*ton.AccountID).UnmarshalTL`, `(*ton.BlockIDExt).UnmarshalTL` and
 `(*tl.Int256).UnmarshalTL` read back what the Marshal sides write (for `AccountID`/`Int256`: followed by anything, leaving
 the rest; `BlockIDExt` takes a slice of exactly 80 bytes and refuses every other length) — and that is what the schema
@@ -410,23 +404,23 @@ theorem handwritten_types_decode :
     · have hlen : (blockIdExtTL wc shard seqno root file).length = 80 := by
         simp [blockIdExtTL, le_length, hr, hf]
       have e1 : (blockIdExtTL wc shard seqno root file).take 4 = le 4 wc := by
-        simp only [blockIdExtTL, List.append_assoc]; exact take_app _ _ 4 (le_length 4 wc)
+        simp only [blockIdExtTL, List.append_assoc]; exact bytes_take_app _ _ 4 (le_length 4 wc)
       have d1 : (blockIdExtTL wc shard seqno root file).drop 4 = le 8 shard ++ (le 4 seqno ++ (root ++ file)) := by
-        simp only [blockIdExtTL, List.append_assoc]; exact drop_app _ _ 4 (le_length 4 wc)
+        simp only [blockIdExtTL, List.append_assoc]; exact bytes_drop_app _ _ 4 (le_length 4 wc)
       have d2 : (blockIdExtTL wc shard seqno root file).drop 12 = le 4 seqno ++ (root ++ file) := by
         have : (blockIdExtTL wc shard seqno root file).drop 12 = ((blockIdExtTL wc shard seqno root file).drop 4).drop 8 := by
           simp
-        rw [this, d1]; exact drop_app _ _ 8 (le_length 8 shard)
+        rw [this, d1]; exact bytes_drop_app _ _ 8 (le_length 8 shard)
       have d3 : (blockIdExtTL wc shard seqno root file).drop 16 = root ++ file := by
         have : (blockIdExtTL wc shard seqno root file).drop 16 = ((blockIdExtTL wc shard seqno root file).drop 12).drop 4 := by
           simp
-        rw [this, d2]; exact drop_app _ _ 4 (le_length 4 seqno)
+        rw [this, d2]; exact bytes_drop_app _ _ 4 (le_length 4 seqno)
       have d4 : (blockIdExtTL wc shard seqno root file).drop 48 = file := by
         have : (blockIdExtTL wc shard seqno root file).drop 48 = ((blockIdExtTL wc shard seqno root file).drop 16).drop 32 := by
           simp
-        rw [this, d3]; exact drop_app _ _ 32 hr
+        rw [this, d3]; exact bytes_drop_app _ _ 32 hr
       simp only [blockIdExtUnTL, hlen, ne_eq, not_true_eq_false, if_false, e1, d1, d2, d3, d4,
-        take_app _ _ 8 (le_length 8 shard), take_app _ _ 4 (le_length 4 seqno), take_app _ _ 32 hr,
+        bytes_take_app _ _ 8 (le_length 8 shard), bytes_take_app _ _ 4 (le_length 4 seqno), bytes_take_app _ _ 32 hr,
         List.take_of_length_le (Nat.le_of_eq hf), unLe_le 4 wc (by simpa using hw), unLe_le 8 shard (by simpa using hs),
         unLe_le 4 seqno (by simpa using hq)]
     · have := liteapi_decode_encode _ _ _ [] fuel (hb wc shard seqno root file hw hs hq hr hf)
@@ -456,5 +450,21 @@ example : encodeRequest liteApi "liteServer.getTime" [] = some [0x34, 0x5a, 0xad
 example : (encodeRequest liteApi "liteServer.lookupBlock"
     [.num 2, .tuple [.num 0xffffffff, .num 0x8000000000000000, .num 7], .num 9, .absent]).isSome = true := by
   decide +kernel
+
+/-- non-vacuity of `liteapi_steps_eq_schema`: a value of `liteServer.transactionId` (three conditional fields, bits 0 and 2
+set, bit 1 clear) satisfies its hypotheses, so the generated `LiteServerTransactionIdC.MarshalTL` steps write its schema
+encoding and the `UnmarshalTL` steps read it back (a test on a literal value, not a proof about all inputs) -/
+def exTxId : Val := .tuple [.num 5, .raw (List.replicate 32 7), .absent, .raw (List.replicate 32 9)]
+
+example : (encode liteApi (.bare "liteServer.transactionId") exTxId).isSome = true ∧
+    Bind.tyRefsOk liteApi tlBindings (.bare "liteServer.transactionId") = true := by decide +kernel
+
+example (bs : Bytes) (h : encode liteApi (.bare "liteServer.transactionId") exTxId = some bs) :
+    Bind.marshalGo tlBindings 9 (.named "LiteServerTransactionIdC") (Bind.rep liteApi (.bare "liteServer.transactionId") exTxId)
+      = some bs ∧
+    ∀ rest, Bind.unmarshalGo tlBindings 9 (.named "LiteServerTransactionIdC") (bs ++ rest)
+      = .ok (Bind.rep liteApi (.bare "liteServer.transactionId") exTxId, rest) := by
+  have := liteapi_steps_eq_schema (.bare "liteServer.transactionId") exTxId bs 9 (by decide) (by decide +kernel) h (by decide)
+  exact ⟨this.1, this.2.1⟩
 
 end Tongo.C10
